@@ -1,6 +1,7 @@
 import Pandora.Drv.Util
 import Pandora.Model.C13Ammo
 import Pandora.Model.C13Funcs
+import Pandora.Model.C13Multi
 import Pandora.Spec.C13
 
 /-
@@ -40,17 +41,21 @@ def badUri (u : Bytes) : Bool :=
 
 def endStr : End → String
   | .ok => "ok"
-  | .err c => if c == "emptykey" then "err:hdr" else s!"err:{c}"
+  | .err c => if c == "emptykey" then "err:hdr" else if c == "noammo" then "ok" else s!"err:{c}"
   | .panic => "panic"
   | .fatal => "fatal-oom"
   | .fuel => "fuel"
 
+/-- a body of more than 64 bytes is rendered by its length, its first four and its last four bytes -/
+def bodyHex (b : Bytes) : String :=
+  if b.length ≤ 64 then hexB b else s!"#{b.length}.{hexB (b.take 4)}.{hexB (b.drop (b.length - 4))}"
+
 def renderRun (withUri : Bool) (r : Run) : String :=
   let es := r.entries.map fun e =>
-    if withUri then s!"{hexB e.tag}/{hexB e.uri}/{hexB e.body}" else hexB e.tag
+    if withUri then s!"{hexB e.tag}/{hexB e.uri}/{bodyHex e.body}" else hexB e.tag
   s!"n={r.entries.length} e={String.intercalate "," es} end={endStr r.end_}"
 
-def ammoModel (fmt : String) (pre : Bool) (data : Bytes) : Option String :=
+def ammoModel (fmt : String) (pre : Bool) (multi : Option (Nat × Nat)) (data : Bytes) : Option String :=
   let run (urlOk : Bytes → Bool) : Option Run :=
     match fmt with
     | "uripost" => some (uripostRun true urlOk data)
@@ -67,6 +72,10 @@ def ammoModel (fmt : String) (pre : Bool) (data : Bytes) : Option String :=
     else if fmt == "uri" && data.length ≥ 65536 then none
     else
       let a := if pre && a.end_ != .ok then { a with entries := [] } else a
+      -- `passes=… limit=…`: the file is read again and again (the harness never asks for neither limit)
+      let a := match multi with
+        | some (passes, limit) => multiRunAll a passes limit
+        | none => a
       some (renderRun (fmt != "raw") a)
   | _, _ => none
 
@@ -80,9 +89,29 @@ def grpcShape (kv : List (String × String)) (data : Bytes) : Option (List Bytes
     let ls := rawLines data
     if ls.any (fun l => l.length ≥ 60000) then none else some ls
 
+/-- a line that certainly does not fit `bufio.Scanner`'s buffer (64 KiB), with only clearly shorter lines before it:
+its index. The run must then end with an error after at most the lines before it, with and without `continue_on_error`. -/
+def grpcTooLong (kv : List (String × String)) (data : Bytes) : Option Nat :=
+  let passes := getS kv "passes"
+  let limit := getS kv "limit"
+  if !(passes == "" || passes == "1") || !(limit == "" || limit == "0") then none
+  else
+    let ls := rawLines data
+    match ls.findIdx? (fun l => l.length ≥ 60000) with
+    | some i => if ((ls[i]?).getD []).length ≥ 66000 then some i else none
+    | none => none
+
 def grpcVerdict (kv : List (String × String)) (data : Bytes) (impl : String) : String :=
   match grpcShape kv data with
-  | none => judge "grpc/json provider" none impl
+  | none =>
+    match grpcTooLong kv data, crashVerdict "grpc/json provider" impl with
+    | some i, none =>
+      let n := (kvOf impl "n").toNat?.getD 0
+      if !(kvOf impl "end").startsWith "err" then
+        s!"fail:accepted:grpc/json provider did not report line {i + 1}, which is longer than the scanner's buffer"
+      else if n > i then s!"fail:prefix:grpc/json provider delivered {n} entries, only {i} lines stand before the over-long one"
+      else "ok"
+    | _, _ => judge "grpc/json provider" none impl
   | some ls =>
     let blank (i : Nat) : Bool := (trimSpace (dropCR ((ls[i]?).getD []))).isEmpty
     grpcJudge (getS kv "coe" == "1") ls.length blank impl
@@ -210,9 +239,30 @@ def model (kv : List (String × String)) : Option (Option String × String) := d
   let k := getS kv "k"
   match k with
   | "ammo" =>
-    let data ← bytesOfHex (getS kv "hex")
+    let head ← bytesOfHex (getS kv "hex")
+    -- `big=<n> hex2=<tail>`: the file is hex ++ n bytes 'x' ++ hex2
+    let data ← if getS kv "big" == "" then some head
+      else do
+        let n ← getN? kv "big"
+        let tail ← bytesOfHex (getS kv "hex2")
+        some (head ++ List.replicate n 120 ++ tail)
     let fmt := getS kv "fmt"
-    pure (ammoModel fmt (getS kv "pre" == "1") data, s!"{fmt} provider")
+    let multi : Option (Nat × Nat) :=
+      if fmt == "grpcjson" || getS kv "passes" == "" then none
+      else some ((getN? kv "passes").getD 1, (getN? kv "limit").getD 0)
+    if multi == some (0, 0) then none
+    pure (ammoModel fmt (getS kv "pre" == "1") multi data, s!"{fmt} provider")
+  | "genjson" =>
+    let data ← bytesOfHex (getS kv "hex")
+    let passes := (getN? kv "passes").getD 1
+    let limit := (getN? kv "limit").getD 0
+    if passes == 0 && limit == 0 then none
+    let r := genjsonRun true data passes limit
+    let m := if r.end_ == "unknown" then none
+      else some s!"n={r.tags.length} e={String.intercalate "," (r.tags.reverse.map hexB)} end={r.end_}"
+    pure (m, "generic JSON provider")
+  | "pfx" => pure (none, s!"{getS kv "fmt"} provider")
+  | "conf" => pure (none, "config placeholder (typed field)")
   | "hdr" =>
     let h ← bytesOfHex (getS kv "hex")
     pure (some (resStr (decodeHeader h) fun (k, v) => s!"ok key={hexB k} val={hexB v}"), "util.DecodeHeader")
@@ -299,11 +349,28 @@ def kindKey (kv : List (String × String)) (impl verdict : String) : String :=
     | "scnw" => "fail:scenario-weight-" ++ (verdict.drop 5).toString
     | "rs" => "fail:randstring-" ++ (verdict.drop 5).toString
     | "scnnull" => "fail:scenario-empty-item-" ++ (verdict.drop 5).toString
+    | "genjson" => "fail:genjson-" ++ (verdict.drop 5).toString
+    | "pfx" => if getS kv "fmt" == "genjson" then "fail:genjson-" ++ (verdict.drop 5).toString else verdict
     | "scnraw" =>
       if containsSub impl "site=config.ExtractVariableStorage" then "fail:scenario-empty-item-" ++ (verdict.drop 5).toString
       else verdict
     | _ => verdict
   else verdict
+
+/-- `junk` is the beginning of a JSON object that lacks its closing brace -/
+def truncatedObject (junk : Bytes) : Bool :=
+  match junk.dropWhile isJsonWs with
+  | 123 :: rest => !rest.contains 125
+  | _ => false
+
+def pfxVerdict (kv : List (String × String)) (impl : String) : Option String := do
+  if getS kv "k" != "pfx" then none
+  let good ← bytesOfHex (getS kv "good")
+  let junk ← bytesOfHex (getS kv "junk")
+  let fmt := getS kv "fmt"
+  let isJson := fmt == "jsonline" || fmt == "grpcjson" || fmt == "genjson"
+  let arrayMode := fmt == "jsonline" && (match good.dropWhile isJsonWs with | 91 :: _ => true | _ => false)
+  some (pfxJudge s!"{fmt} provider" (isJson && !arrayMode && truncatedObject junk) impl)
 
 def handle : Handler := fun input impl =>
   let kv := parseKV input
@@ -311,7 +378,7 @@ def handle : Handler := fun input impl =>
   | none => ("-", "fail:driver:unparsable input")
   | some (m, kind) =>
     let isGrpc := getS kv "k" == "ammo" && getS kv "fmt" == "grpcjson"
-    let verdict := match randIntVerdict kv impl with
+    let verdict := match (randIntVerdict kv impl).orElse (fun _ => pfxVerdict kv impl) with
       | some v => v
       | none =>
         if isGrpc then grpcVerdict kv ((bytesOfHex (getS kv "hex")).getD []) impl
